@@ -527,7 +527,8 @@ BUILTIN_SHADOWS = {
     'mido.midifiles.meta': {'bytearray': SymByteArray, 'range': sym_range, 'struct': SymStruct},
     'mido.messages.messages': {'bytearray': SymByteArray},
     'mido.messages.strings': {'int': tokens.sym_int, 'float': tokens.sym_float},
-    'mido.sockets': {'int': tokens.sym_int, 'ord': sym_ord},
+    'mido.sockets': {'int': tokens.sym_int, 'ord': sym_ord, 'bytearray': SymByteArray},
+    'mido.ports': {'bytearray': SymByteArray},
     'mido.syx': {'bytearray': SymByteArray},
     'mido.midifiles.units': {'int': tokens.sym_int},
     # (not needed by the pinned code; keeps the checks fast if these modules start to buffer in bytearrays)
